@@ -1395,7 +1395,8 @@ def corr_calc(cases: list[tuple[str, str]]) -> tuple[list[tuple[str, str, str]],
             a = got[name]
             reqs.append(f"K {name} {enc}")
             want.append("error" if isinstance(a, Exception) else show_impl(a))
-        if n_top <= 8 and max_level_len(toks_dec(enc)) <= 8:
+        ref_cap = 8 if _driver_mode() == "pestdriver" else 6     # `ref` enumerates every tree over the tokens
+        if n_top <= ref_cap and max_level_len(toks_dec(enc)) <= ref_cap:
             reqs.append(f"K ref {enc}")
             want.append(show_ref(ref_ast(toks_dec(enc))))
         reqs.append(f"KW {enc}")
@@ -1530,18 +1531,18 @@ def run(out: Outcome) -> None:  # noqa: PLR0912, PLR0915
     lean_ok = bool(info.get("driver_ok")) and (info["build_ok"] or _examples_driver_builds())
     t_proof = time.time() - t0 - t_export
 
-    n_json = 6000 if thorough else 480
+    n_json = 4500 if thorough else 480
     n_neg = 60000 if thorough else 6000
-    n_calc = 400000 if thorough else 30000
+    n_calc = 300000 if thorough else 30000
     exh_len = 8 if thorough else 6
     max_units = 40 if thorough else 14
     n_corr_json = 1500 if thorough else 250
     spec_budget = 120000 if thorough else 12000
     max_corr_exh = 10 ** 9
     if _driver_mode() == "scratch":          # interpreted entry point: an order of magnitude slower
-        spec_budget = 15000 if thorough else 4000
-        n_corr_calc_random = 5000 if thorough else 2000
-        max_corr_exh = 40000
+        spec_budget = 10000 if thorough else 4000
+        n_corr_calc_random = 4000 if thorough else 2000
+        max_corr_exh = 30000
     n_corr_calc_random = 20000 if thorough else 3000
 
     with EX.scratch_examples() as td:
